@@ -46,7 +46,7 @@ pub fn cases(thorough: bool, seed: u64) -> Vec<Params> {
     for i in 0..(GRID.len() * GRID.len()) as u64 {
         out.push(Params { n: 0, t: 0, ids: IdSet::Default, subset: vec![], variant: V_PARAMS, aux: i, seed });
     }
-    for k in 0..4u64 {
+    for k in 0..7u64 {
         out.push(Params { n: 3, t: 2, ids: IdSet::Default, subset: vec![], variant: V_PARAMS, aux: 100 + k, seed });
     }
     if thorough {
@@ -130,7 +130,23 @@ fn params_case<C: Ciphersuite, L: Lab<C>>(lab: &mut L, p: &Params) {
             0 => (vec![id(1), id(2)], "IncorrectNumberOfIdentifiers"),
             1 => (vec![id(1), id(2), id(3), id(4)], "IncorrectNumberOfIdentifiers"),
             2 => (vec![id(1), id(2), id(2)], "DuplicatedIdentifier"),
-            _ => (vec![id(7), id(9), id(7)], "DuplicatedIdentifier"),
+            3 => (vec![id(7), id(9), id(7)], "DuplicatedIdentifier"),
+            // list lengths that agree with max_signers only modulo 2^16 (distinct identifiers:
+            // 1..=65535 followed by values above the u16 range)
+            k => {
+                let len = match k {
+                    4 => 3 + 65536usize,
+                    5 => 3 + 2 * 65536usize,
+                    _ => 65536usize,
+                };
+                let mut l: Vec<Identifier<C>> = Vec::with_capacity(len);
+                let mut acc = zero::<C>();
+                for _ in 0..len {
+                    acc = acc + one::<C>();
+                    l.push(Identifier::<C>::new(acc).unwrap());
+                }
+                (l, "IncorrectNumberOfIdentifiers")
+            }
         };
         let r = fc::keys::split(&key, 3, 2, IdentifierList::Custom(&list), lab.rng());
         match r {
